@@ -91,6 +91,14 @@ def combos(tier):
             C.append(dict(base, sizes="1,100,17000"))
             C.append(dict(base, cauth=1, sizes="1,3000"))
             C.append(dict(base, cauth=1, resume="ticket", sizes="2"))
+    # larger keys: P-384 / P-521 ECDSA and RSA-3072 identities under RSA-4096 / P-384 / P-521 roots (SHA-384 / SHA-512 certificate signatures),
+    # client authentication on, TLS 1.2 and 1.3, both roles
+    for leaf, lkey, root, on12, s12 in (("l384", "k384L", "r384", "ECDHE-ECDSA-AES128-GCM-SHA256", 0xc02b), ("l521", "k521L", "r521", "ECDHE-ECDSA-AES256-GCM-SHA384", 0xc02c),
+                                        ("l4", "k4L", "r4", "ECDHE-RSA-AES128-GCM-SHA256", 0xc02f)):
+        for ver in ("T13", "T12"):
+            for role in ("client", "server"):
+                C.append(dict(role=role, ver=ver, suite=hex(0x1301 if ver == "T13" else s12), oname="TLS_AES_128_GCM_SHA256" if ver == "T13" else on12,
+                              key="gen", certdir=EDDIR, leaf=leaf, lkey=lkey, root=root, cauth=1, sizes="1,3000"))
     return C
 
 EDDIR = os.path.join(runner.WORK, "pki_C10")
@@ -98,7 +106,11 @@ def make_ed_pki():
     os.makedirs(EDDIR, exist_ok=True)
     subprocess.run(["gcc", "-O1", "-w", "-o", os.path.join(runner.ROOT, "build/certgen"), os.path.join(runner.ROOT, "harness/certgen.c"), "-lcrypto"], check=True)
     L = ["key kER ed", "key kEL ed", "cert edroot subj=EDR iss=EDR key=kER signkey=kER ca=1 ku=certSign",
-         "cert edleaf subj=localhost iss=EDR key=kEL signkey=kER ca=0 ku=digSig san=DNS:localhost"]
+         "cert edleaf subj=localhost iss=EDR key=kEL signkey=kER ca=0 ku=digSig san=DNS:localhost",
+         "key k384R ec384", "key k384L ec384", "key k521R ec521", "key k521L ec521", "key k4R rsa4096", "key k4L rsa3072",
+         "cert r384 subj=R384 iss=R384 key=k384R signkey=k384R ca=1 ku=certSign md=sha384", "cert l384 subj=localhost iss=R384 key=k384L signkey=k384R ca=0 ku=digSig san=DNS:localhost md=sha384",
+         "cert r521 subj=R521 iss=R521 key=k521R signkey=k521R ca=1 ku=certSign md=sha512", "cert l521 subj=localhost iss=R521 key=k521L signkey=k521R ca=0 ku=digSig san=DNS:localhost md=sha512",
+         "cert r4 subj=R4 iss=R4 key=k4R signkey=k4R ca=1 ku=certSign md=sha512", "cert l4 subj=localhost iss=R4 key=k4L signkey=k4R ca=0 ku=digSig san=DNS:localhost md=sha384"]
     p = subprocess.run([os.path.join(runner.ROOT, "build/certgen"), EDDIR], input="\n".join(L) + "\n", capture_output=True, text=True)
     if p.returncode != 0:
         raise SystemExit("INFRA: certgen failed: " + p.stderr[-1000:])
@@ -146,7 +158,7 @@ def run(tier, seed):
     known = runner.load_known(prop); known_hit = {}
     for ln in v["rejects"]:
         i, c = idx[ln]; d = json.loads(lines[ln - 1])
-        sig = {k: str(c.get(k, "")) for k in ("role", "ver", "oname", "key", "cauth", "resume", "group", "sigalgs", "pad", "early", "oname2", "maxfrag", "pskke")}
+        sig = {k: str(c.get(k, "")) for k in ("role", "ver", "oname", "key", "cauth", "resume", "group", "sigalgs", "pad", "early", "oname2", "maxfrag", "pskke", "leaf")}
         sig["obs"] = "done=%s odone=%s mres=%s ores=%s dataok=%s odataok=%s mver=%s ocipher=%s" % (d["done"], d["odone"], d["mres"], d["ores"], d["dataok"], d["odataok"], d["mver"], d["ocipher"]) + (" earlyok=%s oearly=%s" % (d.get("earlyok"), d.get("oearly")) if c.get("early") else "")
         k = runner.match_known(sig, known)
         if k:
